@@ -46,7 +46,7 @@ impl Client {
             match parts.split_first() {
                 Some((&"go", args)) => {
                     if let Some(search) = current_search.take() {
-                        previous_artifact = Some(search.wait_cancel());
+                        previous_artifact = search.wait_cancel();
                     }
 
                     let mut search_time: Option<f64> = None;
@@ -104,7 +104,7 @@ impl Client {
                 }
                 Some((&"position", args)) => {
                     if let Some(search) = current_search.take() {
-                        previous_artifact = Some(search.wait_cancel());
+                        previous_artifact = search.wait_cancel();
                     }
 
                     let (pos, moves) = args
@@ -184,7 +184,7 @@ impl Client {
                 }
                 Some((&"stop", _)) => {
                     if let Some(search) = current_search.take() {
-                        previous_artifact = Some(search.wait_cancel());
+                        previous_artifact = search.wait_cancel();
                     }
                 }
                 Some((&"uci", _)) => {
@@ -194,7 +194,7 @@ impl Client {
                 }
                 Some((&"ucinewgame", _)) => {
                     if let Some(search) = current_search.take() {
-                        search.wait_cancel();
+                        _ = search.wait_cancel();
                     }
 
                     // A new game must not see the search memory (and the position
@@ -321,10 +321,13 @@ impl Search {
         }
     }
 
-    pub fn wait_cancel(self) -> SearchArtifact {
+    pub fn wait_cancel(self) -> Option<SearchArtifact> {
         _ = self.control.send(searcher::ControlEvent::Stop);
-        let artifact = self.search_handle.join().unwrap();
-        self.write_handle.join().unwrap();
+
+        // A search thread that panicked (e.g. on a FEN that is not a legal chess
+        // position) has no artifact; it must not take the command loop down with it
+        let artifact = self.search_handle.join().ok();
+        _ = self.write_handle.join();
         artifact
     }
 }
